@@ -414,8 +414,9 @@ class Program:
     def __init__(self, cfg, d):
         self.cfg = cfg
         self.raw = d
-        from . import inline, loopidiom, rename
+        from . import inline, loopidiom, rename, constinline
         self.renamed = rename.run(d)
+        self.const_expanded = constinline.run(d)
         self.inlined = inline.run(d)
         self.loop_idioms = loopidiom.run(d)
         self.fns = [Fn(self, f) for f in d["fns"]]
